@@ -119,6 +119,10 @@ class GridMachine(BaseCheck):
         p_oob = k.choice([0.05, 0.15, 0.3])
         # lengths of the pool's models are simulated so that most indexes are valid
         lens = [case['ninit']]
+        if k.random() < 0.3:
+            case['two_roots'] = True
+            case['ninit2'] = k.choice([0, 1, 2, 3])
+            lens.append(case['ninit2'])
         ops = []
         fresh_id = 0
         for j in range(n):
@@ -244,6 +248,15 @@ class GridMachine(BaseCheck):
                 v = {'clause': 'crash', 'detail': dict(v['detail'], why='building the id index while appending rows raised')}
             return {'viol': v, 'digest': rng.digest(['init-crash']), 'stats': stats, 'distinct': [], 'nontrivial': False, 'steps': 0}
         pool = [(root, rmodel)]
+        if case.get('two_roots'):
+            # a second, independent grid built from the same row objects: anything shared between Grid
+            # instances by mistake (class-level state, default arguments) shows up as one answering for the other
+            try:
+                root2, rmodel2 = self._new_root(dict(case, ninit=case.get('ninit2', 0)), rows[::-1])
+            except Exception as e:
+                root2 = None
+            if root2 is not None:
+                pool.append((root2, rmodel2))
         used_keys = []          # every id value ever used in this run (present, deleted, replaced)
         for row in rows:
             if 'id' in row:
